@@ -841,12 +841,17 @@ fn judge(d: &Design, opts: &fcx::Opts, xcheck: bool, st: &mut Stats) -> Outcome 
         }
     };
     st.compiled += 1;
+    Outcome::Judged(judge_font(d, opts, &bytes, xcheck, st))
+}
+
+/// Judge a compiled font against the drawings of `d`.
+fn judge_font(d: &Design, opts: &fcx::Opts, bytes: &[u8], xcheck: bool, st: &mut Stats) -> Vec<Finding> {
     let mut findings = vec![];
-    let vf = match VFont::new(&bytes) {
+    let vf = match VFont::new(bytes) {
         Ok(v) => v,
         Err(e) => {
             findings.push(Finding { class: "unreadable", what: format!("the compiled font cannot be evaluated: {e}"), detail: Value::Null });
-            return Outcome::Judged(findings);
+            return findings;
         }
     };
     let names = vf.glyph_names();
@@ -877,7 +882,7 @@ fn judge(d: &Design, opts: &fcx::Opts, xcheck: bool, st: &mut Stats) -> Outcome 
         devs.push(dev);
     }
     if !findings.is_empty() {
-        return Outcome::Judged(findings);
+        return findings;
     }
     if (0..nm).any(|m| {
         let user: Vec<(String, f64)> = d.axes.iter().zip(d.master_user(m)).map(|(a, u)| (a.tag.clone(), u)).collect();
@@ -1234,7 +1239,7 @@ fn judge(d: &Design, opts: &fcx::Opts, xcheck: bool, st: &mut Stats) -> Outcome 
         for g in d.glyphs.iter() {
             if let Some(gid) = names.iter().position(|n| *n == g.name) {
                 for &m in g.layers.keys() {
-                    crosscheck(&bytes, gid as u16, &coords[m], &g.name, st);
+                    crosscheck(bytes, gid as u16, &coords[m], &g.name, st);
                 }
             }
         }
@@ -1246,7 +1251,7 @@ fn judge(d: &Design, opts: &fcx::Opts, xcheck: bool, st: &mut Stats) -> Outcome 
     st.designs_with_nested_composites += any_nested as u64;
     st.designs_with_layer_master += d.masters.iter().any(|m| matches!(m.kind, dgen::MasterKind::LayerOf(_))) as u64;
     st.designs_keep_direction += opts.keep_direction as u64;
-    Outcome::Judged(findings)
+    findings
 }
 
 fn crosscheck(bytes: &[u8], gid: u16, coords: &[f64], name: &str, st: &mut Stats) {
@@ -1259,6 +1264,60 @@ fn crosscheck(bytes: &[u8], gid: u16, coords: &[f64], name: &str, st: &mut Stats
 }
 
 // ------------------------------------------------------------------------------------------- main
+
+/// Sensitivity of the oracle: compile a design, then judge the font against a design whose
+/// expectation was falsified in one small way. Every falsification must be reported.
+fn selftest() -> ! {
+    let mk = |kind, fam, layers: Vec<QLoc>| Case { n: 2, locs: vec![vec![0, 0], vec![4, 0], vec![0, 4], vec![4, 4]], layers, kind, fam, keep_direction: false, mapped: false };
+    let mut failures = 0;
+    let mut run = |name: &str, case: &Case, falsify: &dyn Fn(&mut Design), want: &str| {
+        let (d, opts) = build(case);
+        let bytes = compile_design(&d, &opts).unwrap_or_else(|e| vcore::machinery_error(&format!("selftest compile: {e:?}")));
+        let mut st = Stats::default();
+        let clean = judge_font(&d, &opts, &bytes, false, &mut st);
+        let mut bad = d.clone();
+        falsify(&mut bad);
+        let f = judge_font(&bad, &opts, &bytes, false, &mut st);
+        let hit = f.iter().any(|x| x.class == want);
+        println!("selftest {name}: clean findings {}, falsified findings {} ({}) -> {}", clean.len(), f.len(), f.first().map(|x| x.what.as_str()).unwrap_or("-"), if hit && clean.is_empty() { "ok" } else { "MISSED" });
+        if !hit || !clean.is_empty() {
+            failures += 1;
+        }
+    };
+    // one coordinate of one non-default master off by 1.5 units
+    run("line: one point of master 2 moved by 1.5", &mk(Kind::Line, Fam::AllMove, vec![]), &|d| d.glyphs[7].layers.get_mut(&2).unwrap().contours[0].points[1].x += 1.5, "coordinate");
+    // with IUP in play (scale family): a point moved by 2 units
+    run("line/scale: one point of master 3 moved by 2", &mk(Kind::Line, Fam::Scale, vec![]), &|d| d.glyphs[7].layers.get_mut(&3).unwrap().contours[1].points[5].y -= 2.0, "coordinate");
+    // the default master off by one unit
+    run("quadratic: default master point moved by 1", &mk(Kind::Quadratic, Fam::SomeStatic, vec![]), &|d| d.glyphs[3].layers.get_mut(&0).unwrap().contours[0].points[1].y += 1.0, "coordinate");
+    // two masters' drawings exchanged
+    run("quadratic: masters 1 and 2 exchanged", &mk(Kind::Quadratic, Fam::AllMove, vec![vec![2, 2]]), &|d| {
+        let g = &mut d.glyphs[15];
+        let (a, b) = (g.layers[&1].clone(), g.layers[&2].clone());
+        g.layers.insert(1, b);
+        g.layers.insert(2, a);
+    }, "coordinate");
+    // the layer master's drawing replaced by the interpolation-free default drawing
+    run("cubic: layer master drawn like the default", &mk(Kind::Cubic, Fam::AllMove, vec![vec![2, 2]]), &|d| {
+        let g = &mut d.glyphs[15];
+        let a = g.layers[&0].clone();
+        g.layers.insert(4, a);
+    }, "coordinate");
+    run("composite: offset of master 3 off by 1", &mk(Kind::Composite, Fam::AllMove, vec![]), &|d| d.glyphs.last_mut().unwrap().layers.get_mut(&3).unwrap().components[1].xform[4] += 1.0, "coordinate");
+    run("composite: default offset off by 1", &mk(Kind::Nested, Fam::AllMove, vec![]), &|d| d.glyphs.last_mut().unwrap().layers.get_mut(&0).unwrap().components[0].xform[5] -= 1.0, "coordinate");
+    run("line: a point inserted", &mk(Kind::Line, Fam::AllMove, vec![]), &|d| {
+        for l in d.glyphs[7].layers.values_mut() {
+            l.contours[0].points.push(pt(0.0, 200.0, PtKind::Line));
+        }
+    }, "structure");
+    run("line: direction not reversed", &mk(Kind::Line, Fam::AllMove, vec![]), &|d| {
+        for l in d.glyphs[7].layers.values_mut() {
+            l.contours[1].points.reverse();
+        }
+    }, "coordinate");
+    vcore::cleanup_scratch();
+    std::process::exit(if failures == 0 { 0 } else { 1 })
+}
 
 fn replay(path: &std::path::Path) -> ! {
     let s = std::fs::read_to_string(path).unwrap_or_else(|e| vcore::machinery_error(&format!("{path:?}: {e}")));
@@ -1307,6 +1366,9 @@ fn main() {
     }
     let mut rep = Reporter::new("C03", "exploration", &args);
     let (cases, notes) = spaces(args.tier);
+    if args.rest.iter().any(|a| a == "--selftest") {
+        selftest();
+    }
     if args.rest.iter().any(|a| a == "--count") {
         println!("{} designs: {}", cases.len(), serde_json::to_string(&notes).unwrap());
         return;
